@@ -22,7 +22,7 @@ RULE = ('a case = generated FileStorage history with packs and reopens; the inde
         'the file that lost its unsynced tail after an injected fsync failure in tpc_finish, opened with the index the '
         'storage saved while shutting down; and the file followed by zero bytes (size extended, blocks never written); '
         'non-trivial = a stale (saved before >= 1 later commit or before a pack) or cut-short index, or a '
-        'read-only open of an image with an unfinished tail; distinct by (image hash, variant hash)')
+        'read-only open of an image with an unfinished tail; distinct by (image hash, variant hash); later additions: old dictionary-format indexes, index cuts at pickle boundaries, time-travel opens (stop=) with and without index, read-only use beside left-over side files, padding that reads like transaction/data headers and histories of large equal-sized records around a pack')
 ASSUMPTIONS = ['bit damage inside an index file is outside the guarantee (statement); only truncations and stale '
                'snapshots of genuine index files are generated',
                'index snapshots newer than a crash image (saved position beyond the image) are excluded: they '
